@@ -482,6 +482,10 @@ func (a *asset) generateTimelineEntries(repID string, wt wrapTimes, atoMS int) s
 	// The offset is added before the conversion to media time, so that a segment is listed
 	// from the very millisecond at which the segment server starts to deliver it.
 	relStartTime := uint64((wt.startRelMS + atoMS) * rep.MediaTimescale / 1000)
+	if loopDur := uint64(rep.duration()); relStartTime >= loopDur { // the offset reaches into a later loop
+		wt.startWraps += int(relStartTime / loopDur)
+		relStartTime %= loopDur
+	}
 	relStartIdx := 0
 	if relStartTime < segs[0].EndTime {
 		wt.startWraps--
@@ -499,6 +503,10 @@ func (a *asset) generateTimelineEntries(repID string, wt wrapTimes, atoMS int) s
 	}
 
 	relNowTime := uint64((wt.nowRelMS + atoMS) * rep.MediaTimescale / 1000)
+	if loopDur := uint64(rep.duration()); relNowTime >= loopDur { // the offset reaches into a later loop
+		wt.nowWraps += int(relNowTime / loopDur)
+		relNowTime %= loopDur
+	}
 	relNowIdx := 0
 	if relNowTime < segs[0].EndTime {
 		wt.nowWraps--
